@@ -472,6 +472,24 @@ def check_flatten_reshape(ctx, chk):
         chk.ob("C09.from-numpy", f"{cls}.from_numpy reshapes the given array to "
                f"{'the state shape' if cls == 'State' else '(rows+1, cols)'}", ok, str(got),
                f"{ci.module.path}:{m.node.lineno}")
+        if len(resh) == 1:
+            # ... exactly when its shape is not that shape already (or always)
+            from sa.canon import f_equiv, f_not, A
+            F = cn.conj(tuple(c for c in resh[0].pc if c[0] not in ("fact", "inloop")))
+            tgt = got[0] if got[0].startswith("((") else got[0][1:-1] if cls == "State" else got[0]
+            a_, b_ = sorted([f"{arr}.shape", tgt])
+            okc = F == ("true",) or f_equiv(F, f_not(A(f"{a_}=={b_}")))
+            chk.ob("C09.from-numpy", f"{cls}.from_numpy reshapes whenever the given array does not "
+                   "have the target shape", bool(okc), f"reshape under {f_show(F)}",
+                   f"{ci.module.path}:{m.node.lineno}")
+        if cls == "State":
+            news = [ev for ev in s.events if ev.kind == "new" and ev.data["cls"] == "State"]
+            okn = len(news) >= 1 and all(
+                len(ev.data["args"]) == 2 and cn.show(ev.data["args"][1]) == m.params[3]
+                and arr in cn.show(ev.data["args"][0]) for ev in news)
+            chk.ob("C09.from-numpy", "State.from_numpy builds State(<the array>, host_num_map)", okn,
+                   str([[cn.show(a)[:80] for a in ev.data["args"]] for ev in news]),
+                   f"{ci.module.path}:{m.node.lineno}")
 
 
 def check_order(ctx, chk):
